@@ -232,6 +232,8 @@ class Engine:
                 out[name] = bool(z3.is_true(m.eval(payload, model_completion=True)))
             elif kind == "bytes":
                 out[name] = bytes(m.eval(t, model_completion=True).as_long() & 0xFF for t in payload).hex()
+            elif kind == "str":
+                out[name] = [m.eval(t, model_completion=True).as_long() for t in payload]
             elif kind == "const":
                 out[name] = payload
         if self.uf_apps:
